@@ -1,5 +1,7 @@
 CONSTANTS
   Dev = {}
+  Mut = {}
+  AdvOn = {"ANS", "DS", "DNSKEY"}
   AnchorForms = {"dnskey"}
   Cfgs = {"default"}
   MaxRuns = 1
@@ -7,7 +9,7 @@ CONSTANTS
   Budget = 1
   Shapes = {"secure3", "insecure3", "secure4"}
   Denials = {"nsec", "nsec3", "optout"}
-  QKinds = {"wilddeep", "wcname", "wcnodata", "positive", "nxdomain"}
+  QKinds = {"wilddeep", "wildsub", "wcname", "wcnodata", "positive", "nxdomain"}
   AdvActs = {"ShortSig", "DropRrsig", "DropRrset", "ReplaceRdata", "WrongSigner", "Expire", "NotYetValid", "ReplayAncestor", "AddCollidingKey", "AddExtraDs", "CorruptSigOctets", "HideCe", "ForgeSigned", "AddBadSig", "CorruptKey", "CorruptDs", "StripProof", "ForgeNsecRange", "SwapProof", "BadNsec3Label", "BadNsec3LabelSigned", "ZeroCounts", "ZeroTtl", "Inject", "CnameLoop", "MisapplyWildcard", "DenyExisting", "SigsFirst", "Duplicate", "OrphanSig", "WrongSoa"}
 SPECIFICATION Spec
 VIEW View
